@@ -359,15 +359,20 @@ fn gen_mutation(rng: &mut Rng, keys: &[&str], c: u64, ntok: &mut u64) -> String 
             let mode = match rng.below(10) {
                 0..=5 => "ow".to_string(),
                 6..=7 => "cr".to_string(),
-                _ => format!("up:t{}", rng.below(*ntok + 1)),
+                8 => format!("up:t{}", rng.below(*ntok + 1)),
+                _ => match rng.below(4) {
+                    0 => "up:none".to_string(),
+                    1 => format!("up:t{}:v", rng.below(*ntok + 1)),
+                    _ => format!("up:t{}", rng.below(*ntok + 1)),
+                },
             };
             *ntok += 1;
             format!("put {k} {mode} {} {}", size(rng), rng.below(50))
         }
         35..=46 => {
-            let np = 1 + rng.usize(3);
+            let np = rng.usize(4);
             *ntok += 1;
-            format!("mput {k} {} {}", (0..np).map(|_| size(rng).min(40).to_string()).collect::<Vec<_>>().join(","), rng.below(50))
+            format!("mput {k} {} {}", if np == 0 { "-".to_string() } else { (0..np).map(|_| size(rng).min(40).to_string()).collect::<Vec<_>>().join(",") }, rng.below(50))
         }
         47..=64 => format!("copy {k} {k2} {}", if rng.chance(3, 4) { "ow" } else { "cr" }),
         65..=82 => format!("ren {k} {k2} {}", if rng.chance(3, 4) { "ow" } else { "cr" }),
